@@ -107,6 +107,7 @@ class Sim:
                 self.ai.generate_cache()
         self.pending = False  # un-validated external changes exist
         self.pending_paths = set()
+        self.pending_kinds = {}
         self.names_seen = set()
         self.stamps = {}  # path -> (stamp_ns, size) of the last external write
         self.taint = {"folder_moved_or_removed": False, "external_change": False, "create_without_write": False}
@@ -267,15 +268,18 @@ class Sim:
                     params = None
                 out["obj"] = ["function", params]
             else:
-                t = obj.get_type()
-                if isinstance(t, pyobjects.PyClass):
-                    tm = t.get_module().get_resource()
-                    out["obj"] = ["instance", t.get_name(), tm.path if tm is not None else None,
-                                  sorted(t.get_attributes().keys())[:60]]
-                else:
-                    out["obj"] = "opaque"
+                # instances: what an assignment's right-hand side evaluates to
+                # goes through return-value inference and the object-info
+                # store that static inference itself fills as a side effect
+                # (accumulated knowledge: by design more than a fresh project has)
+                out["obj"] = "opaque"
         except Exception as e:
-            out["obj"] = "exc:" + type(e).__name__
+            from rope.base import pynames
+
+            if isinstance(pyname, (pynames.DefinedName, pynames.ImportedModule)):
+                out["obj"] = "exc:" + type(e).__name__
+            else:
+                out["obj"] = "opaque"  # inference of a value failed: inference-dependent, not compared
         return out
 
     def confirm_module(self, path, warm_view):
@@ -379,6 +383,8 @@ class Sim:
                     return "skip"
                 if self._clash(t, (st["dir"] + "/" if st["dir"] else "") + st["name"] + ".py"):
                     return "skip"
+                if self._pending_under((st["dir"] + "/" if st["dir"] else "") + st["name"] + ".py"):
+                    return "skip"  # the client does not work on paths with un-validated external changes
                 generate.create_module(W, st["name"], W.get_folder(st["dir"]) if st["dir"] else None)
                 if st.get("text") is not None:
                     W.get_file((st["dir"] + "/" if st["dir"] else "") + st["name"] + ".py").write(st["text"])
@@ -386,7 +392,7 @@ class Sim:
                     self.taint["create_without_write"] = True
             elif a == "c_create_package":
                 path = (st["dir"] + "/" if st["dir"] else "") + st["name"]
-                if not isdir(st["dir"]) or path in t or self._clash(t, path):
+                if not isdir(st["dir"]) or path in t or self._clash(t, path) or self._pending_under(path):
                     return "skip"
                 generate.create_package(W, st["name"], W.get_folder(st["dir"]) if st["dir"] else None)
             elif a == "c_move":
@@ -525,6 +531,7 @@ class Sim:
                     folder = ""
                 # the folder must cover every pending change to count as validation
                 if folder and any(not (p == folder or p.startswith(folder + "/")) for p in self.pending_paths):
+                    # (a pending '' means the root listing changed: only a root validate covers it)
                     W.validate(W.get_folder(folder))
                     out.stats["partial_validate"] += 1
                 else:
@@ -533,14 +540,17 @@ class Sim:
                         out.stats["probe_validate_with_pending_changes"] += 1
                     self.pending = False
                     self.pending_paths.clear()
+                    self.pending_kinds.clear()
             elif a == "v_report":
                 # libutils.report_change for the single most recent external edit
                 le = getattr(self, "last_edit", None)
-                if not le or self.pending_paths != {le[0]} or not isfile(le[0]):
+                # report_change announces a content change of one known file, nothing else
+                if not le or self.pending_paths != {le[0]} or not isfile(le[0]) or self.pending_kinds.get(le[0]) != {"edit"}:
                     return "skip"
                 libutils.report_change(W, self.full(le[0]), le[1].decode("utf-8", "replace"))
                 self.pending = False
                 self.pending_paths.clear()
+                self.pending_kinds.clear()
                 out.stats["probe_report_change"] += 1
             # ---------------- observer (cache warming)
             elif a == "q_subset":
@@ -569,6 +579,11 @@ class Sim:
     def _ext(self, p, text_old=None):
         self.pending = True
         self.pending_paths.add(p)
+        self.pending_kinds.setdefault(p, set()).add("edit" if text_old is not None else "structure")
+        if text_old is None:
+            # creating/deleting/renaming an entry also changes the containing
+            # folder (its listing): validation has to cover that folder too
+            self.pending_paths.add(p.rsplit("/", 1)[0] if "/" in p else "")
         self.taint["external_change"] = True
         self.out.stats["fired_external_change"] += 1
 
@@ -870,7 +885,8 @@ class CoherenceEngine(Engine):
                             sig["warm_exc"] = w
                         out.violate(
                             "stale_answer", sig,
-                            {"step": i, "section": section, "key": key, "warm": _s(w), "fresh": _s(f),
+                            {"step": i, "section": section, "key": key, "at": _narrow(w, f)[0],
+                             "warm": _s(_narrow(w, f)[1]), "fresh": _s(_narrow(w, f)[2]),
                              "recent_steps": [_brief(s) for s in steps_out[-6:]]},
                             where=i,
                         )
@@ -907,6 +923,15 @@ def _diff_batteries(w, f):
         else:
             diffs.append((section, None, a, b))
     return diffs
+
+
+def _narrow(w, f, path=""):
+    """Descend to the first differing leaf (for readable violation details)."""
+    if isinstance(w, dict) and isinstance(f, dict):
+        for k in sorted(set(w) | set(f), key=str):
+            if w.get(k) != f.get(k):
+                return _narrow(w.get(k), f.get(k), path + "/" + str(k))
+    return path, w, f
 
 
 def _s(v):
